@@ -108,6 +108,30 @@ Theorem op_budget_client_recv_packet :
 Proof. exact client_recv_budget. Qed.
 Print Assumptions op_budget_client_recv_packet.
 
+(* op_budget, send_packet at transport level (send_all_from_iterable on every path: sendmsg loop with any
+   SC_IOV_MAX, join + send_all), k partial writes: the waits stay inside T. *)
+Theorem op_budget_send_all_from_iterable :
+  forall (drop_empty has_sendmsg : bool) (iov : Z) (F fuel : nat) (ri : tmo) (chunks : list bytes) (t : Z)
+         (s : sock) (sels : list selans),
+    (match ri with None => True | Some x => 0 < x end) ->
+    Forall (fun a => 0 <= match a with SSent _ c => c | SBlock _ c => c | SErr c => c end) (sk_script s) ->
+    within_budget t (sr_waits (send_iter drop_empty has_sendmsg iov F fuel ri chunks (Some t) s sels)).
+Proof. exact send_iter_budget. Qed.
+Print Assumptions op_budget_send_all_from_iterable.
+
+(* op_budget, TCPNetworkClient.send_packet: lock wait + k partial writes. *)
+Theorem op_budget_client_send_packet :
+  forall (drop_empty has_sendmsg : bool) (iov : Z) (F fuel : nat) (ri : tmo) (chunks : list bytes) (t : Z)
+         (l : lockans) (s : sock) (sels : list selans),
+    (match ri with None => True | Some x => 0 < x end) ->
+    Forall (fun a => 0 <= match a with SSent _ c => c | SBlock _ c => c | SErr c => c end) (sk_script s) ->
+    let k := lock_with_timeout (Some t) l in
+    within_budget t
+      (map (fun req => {| w_write := false; w_req := req; w_ready := true; w_el := lk_dt k |}) (lk_waits k)
+       ++ sr_waits (cs_sr (client_send drop_empty has_sendmsg iov F fuel ri chunks (Some t) l s sels))).
+Proof. exact client_send_budget. Qed.
+Print Assumptions op_budget_client_send_packet.
+
 (* ---- non-vacuity: a drip-fed 3-byte packet, retry interval 2, T = 8: four waits, all inside the budget *)
 Example drip_feed :
   let s := [RBlock false 0; RData [1%N] 0; RBlock false 0; RData [2%N] 0; RBlock false 0; RBlock false 0; RData [3%N] 0] in
